@@ -107,6 +107,50 @@ def acceptor(hist, io):
     return None
 
 
+# ---------------------------------------------------------------------------
+# concurrent producers and consumers under the deterministic scheduler
+
+def conc_case(args):
+    import os
+    import random
+    import sys
+    sys.path.insert(0, os.path.dirname(os.path.dirname(os.path.abspath(__file__))))
+    import conc
+    seed, tier = args
+    rng = random.Random(seed)
+    cfg = {'mfs': 8, 'policy': rng.choice(['none', 'lrs']), 'cull': 10, 'stats': 0}
+    pfx = rng.choice([None, 'q'])
+    preset = [{'m': 'push', 'now': 1000, 'v': rng.choice(['p0', b'P' * 20]), 'prefix': pfx, 'ttl': None, 'tag': None}
+              for _ in range(rng.randint(0, 2))]
+    n_clients = rng.choice([2, 2, 3])
+
+    def op():
+        m = rng.choice(['push', 'pull', 'pull', 'peek'])
+        o = {'m': m, 'now': 1000, 'prefix': pfx}
+        if m == 'push':
+            o.update(v=rng.choice(['x%d' % rng.randrange(100), b'F' * 21]), side=rng.choice(['back', 'back', 'front']), ttl=None, tag=None)
+        else:
+            o['side'] = rng.choice(['front', 'front', 'back'])
+        return o
+    programs = {c: [op() for _ in range(rng.randint(1, 2))] for c in range(n_clients)}
+    shared = rng.random() < 0.4
+    bound, n_rand = (14, 4) if tier == 'quick' else (40, 30)
+    scheds = []
+    if n_clients == 2:
+        for a, b in ((0, 1), (1, 0)):
+            for k in range(bound):
+                scheds.append([a] * k + [b] * 400 + [a] * 400)
+    for _ in range(n_rand + (6 if n_clients == 3 else 0)):
+        scheds.append(rng.choices(range(n_clients), k=rng.randint(5, 60)))
+    out = []
+    for sch in scheds:
+        run = conc.run_concurrent(cfg, preset, programs, sch, shared=shared)
+        why = conc.explain(run, programs, cfg)
+        out.append({'why': why, 'steps': run['steps'], 'sched': sch[:80] if why else None,
+                    'res': {c: [x[1] for x in l] for c, l in run['lines'].items()} if why else None})
+    return {'seed': seed, 'programs': programs, 'preset': preset, 'shared': shared, 'results': out}
+
+
 def run(tier, seed, rng, known, replay):
     if replay:
         return base.replay_file(replay, 'C10', ('result', 'state'), acceptor)
@@ -115,10 +159,28 @@ def run(tier, seed, rng, known, replay):
     hists += [queue_history(rng, 250) for _ in range(m)]
     r = base.check_histories('C10', hists, ('result', 'state'), acceptor=acceptor, known=known)
     dist, distinct = base.op_distribution(hists, r['impl_out'])
+    # exactly-once under concurrent producers / consumers
+    from concurrent.futures import ProcessPoolExecutor
+    n_cases = 32 if tier == 'quick' else 400
+    seeds = [rng.getrandbits(48) for _ in range(n_cases)]
+    with ProcessPoolExecutor(max_workers=16) as ex:
+        cases = list(ex.map(conc_case, [(s, tier) for s in seeds], chunksize=1))
+    conc_runs = 0
+    for c in cases:
+        for x in c['results']:
+            conc_runs += 1
+            if x['why'] and len(r['violations']) < 3:
+                r['violations'].append({'replay': {'property': 'C10', 'kind': 'concurrent-queue', 'case_seed': c['seed'], 'shared_object': c['shared'],
+                                                  'preset': base.tag(c['preset']), 'programs': base.tag(c['programs']), 'schedule': x['sched'],
+                                                  'results': x['res'], 'acceptor': x['why']},
+                                       'found_input': True, 'what': 'queue not exactly-once / not linearizable: ' + x['why']})
+    dist = dict(dist, concurrent_cases=len(cases), concurrent_runs=conc_runs)
     return {
-        'evaluations': sum(len(h['ops']) for h in hists), 'distinct_nontrivial': distinct,
+        'evaluations': sum(len(h['ops']) for h in hists) + conc_runs, 'distinct_nontrivial': distinct + len(cases),
         'rule': "seeded histories of push/pull/peek on both sides over prefixes {None,'a','a-5','a-','b'} mixed with ordinary keys "
-                "('a-1','a-5-x',...), expiring and file-backed items; distinct = distinct (method, result, trace) triples",
+                "('a-1','a-5-x',...), expiring and file-backed items; plus 2-3 concurrent producers/consumers (push/pull/peek, both sides) under the "
+                "deterministic scheduler (all one-preemption schedules up to the bound + random), each run explained on the Lean model; "
+                "distinct = distinct (method, result, trace) triples + concurrent cases",
         'samples': [base.sample(hists[0], r['impl_out'][0])],
         'traces': len(hists),
         'dist': dict(dist, histories=len(hists), divergent=r['divergent'], timing=r['stats']),
